@@ -364,7 +364,7 @@ def ob_project(dim):
         stb = g.stmts[g.producer[pr.outs['B'][0]]]
         for d in pr.b_extra_deps: check(d in [os.path.normpath(i) for i in stb['deps'] + stb['order'] + stb['ins']], 'depends: / depend_files: become dependencies of the statement')
         if pr.c_cmd_dep is not None:
-            stc = g.stmts[g.producer['c1.txt']]
+            stc = g.stmts[g.producer[pr.outs['C'][0]]]
             check(pr.c_cmd_dep in stc['deps'] + stc['order'] + stc['ins'], 'a target output named in a command is a dependency of the statement')
         cover('done')
         if pr.default: cover('default')
